@@ -17,6 +17,11 @@
 //   listlimitms / createlimitms: rate limits of the cloud's list / create calls (calls in between fail)
 //   reportbroken k, reportbrokenms: the first k VMs report "broken" in their probe answers from that
 //   age on (event "broken" when such an answer is first given); onetype: one instance type for all
+//   stalelist: the queue is empty at first; a list call of the pool is caught (snapshot: no instances)
+//   and held; only then the containers are queued; when the first container has a (slowly detaching,
+//   still Locked) process on the first instance - created after the snapshot - the stale answer is
+//   released; later list calls wait until a second process of that container has appeared or 1.5 s
+//   have passed.  The pool must not drop the instance it created after the list call began.
 //   breakfirst k: the first k VMs stop answering shortly after creation while their (long-running)
 //   containers are Running: the instances are shut down and the containers must be cancelled
 //   holdallms: for this long the operator puts every instance on hold as soon as the pool lists it
@@ -88,6 +93,7 @@ type vE2EScenario struct {
 	ReportBroken   int     `json:"reportbroken"`  // the first k VMs start reporting "broken" reportbrokenms after creation
 	ReportBrokenMs int     `json:"reportbrokenms"`
 	OneType        bool    `json:"onetype"`    // every container fits every instance
+	StaleList      bool    `json:"stalelist"`  // one answer of the cloud's list call is returned late (see vListGate)
 	BreakFirst     int     `json:"breakfirst"` // the first k VMs stop answering as soon as their container is Running
 }
 
@@ -253,9 +259,45 @@ func (p *vPoolWrap) StartContainer(it arvados.InstanceType, ctr arvados.Containe
 
 // ---------------------------------------------------------------- persistent cloud across restarts
 
-type vPersistentSet struct{ cloud.InstanceSet }
+type vPersistentSet struct {
+	cloud.InstanceSet
+	g *vListGate
+}
 
 func (vPersistentSet) Stop() {}
+
+// vListGate lets a scenario make ONE answer of the cloud's list call stale: the snapshot is taken when
+// the call arrives, the answer is returned when the driver releases it; list calls after it wait until
+// the driver opens the gate again.  Everything is driven by events, not by time.
+type vListGate struct {
+	mu      sync.Mutex
+	mode    int // 0 pass, 1 armed (the next call is the stale one), 2 stale call held / later calls wait
+	caught  chan struct{}
+	release chan struct{}
+	open    chan struct{}
+}
+
+func (p vPersistentSet) Instances(tags cloud.InstanceTags) ([]cloud.Instance, error) {
+	if p.g == nil {
+		return p.InstanceSet.Instances(tags)
+	}
+	p.g.mu.Lock()
+	switch p.g.mode {
+	case 1:
+		p.g.mode = 2
+		p.g.mu.Unlock()
+		snap, err := p.InstanceSet.Instances(tags)
+		close(p.g.caught)
+		<-p.g.release
+		return snap, err
+	case 2:
+		p.g.mu.Unlock()
+		<-p.g.open
+		return p.InstanceSet.Instances(tags)
+	}
+	p.g.mu.Unlock()
+	return p.InstanceSet.Instances(tags)
+}
 
 // ---------------------------------------------------------------- one run
 
@@ -274,6 +316,7 @@ type vE2ERun struct {
 	vms       []*test.StubVM
 	release   chan struct{} // closed to let blocked ExecuteContainer calls return (kf scenario)
 	nVM       int
+	gate      *vListGate
 	reported  map[int]bool // VMs that have answered a probe with "broken"
 	deaf      *test.StubVM // kf scenario: the VM that stopped answering before the restart
 	restarted bool
@@ -317,6 +360,9 @@ func (e *vE2ERun) setupVM(svm *test.StubVM) {
 		return 0
 	}
 	svm.ExtraCrunchRunArgs = "'--foo' '--extra='\\''args'\\'''"
+	if scn.StaleList && n == 1 {
+		svm.CrunchRunDetachDelay = 2500 * time.Millisecond // its container stays Locked with a live process
+	}
 	if n <= scn.ReportBroken {
 		svm.ReportBroken = time.Now().Add(time.Duration(scn.ReportBrokenMs) * time.Millisecond)
 	}
@@ -438,6 +484,10 @@ func (e *vE2ERun) observe() (notFinal []int, insts int, held map[int]bool) {
 func vE2EOne(t *testing.T, scn *vE2EScenario, tw *vTraceWriter, hostpriv ssh.Signer, dispatchpub ssh.PublicKey, dispatchprivraw []byte, calib time.Duration) time.Duration {
 	logger := logrus.New()
 	logger.Out = io.Discard
+	if os.Getenv("VERIF_DEBUG") == "2" {
+		logger.Out = os.Stdout
+		logger.Level = logrus.DebugLevel
+	}
 	e := &vE2ERun{scn: scn, rnd: rand.New(rand.NewSource(scn.RSeed)), logger: logger, release: make(chan struct{}),
 		rec: &vRec{known: map[int][2]interface{}{}, ib: map[int]string{}, tw: tw}, reported: map[int]bool{}}
 	e.rec.events = vEventSink{e.rec}
@@ -503,7 +553,7 @@ func vE2EOne(t *testing.T, scn *vE2EScenario, tw *vTraceWriter, hostpriv ssh.Sig
 	}
 	init := []string{}
 	ntypes := 3
-	if scn.KF || scn.OneType {
+	if scn.KF || scn.OneType || scn.StaleList {
 		ntypes = 1 // every container fits every instance
 	}
 	for i := 0; i < scn.N; i++ {
@@ -519,6 +569,10 @@ func vE2EOne(t *testing.T, scn *vE2EScenario, tw *vTraceWriter, hostpriv ssh.Sig
 		init = append(init, "Queued")
 		e.rec.known[i+1] = [2]interface{}{"Queued", int64(i%scn.Prios + 1)}
 	}
+	var deferred []arvados.Container
+	if scn.StaleList {
+		deferred, e.queue.Containers = e.queue.Containers, nil
+	}
 	e.qwrap = &vQueueWrap{q: e.queue, r: e.rec}
 	e.sd.Queue = e.queue
 	e.sd.SetupVM = e.setupVM
@@ -532,13 +586,77 @@ func vE2EOne(t *testing.T, scn *vE2EScenario, tw *vTraceWriter, hostpriv ssh.Sig
 		t.Fatal(err)
 	}
 	e.sis = sis
+	if scn.StaleList {
+		e.gate = &vListGate{caught: make(chan struct{}), release: make(chan struct{}), open: make(chan struct{})}
+	}
 	Drivers["verif"] = cloud.DriverFunc(func(config json.RawMessage, id cloud.InstanceSetID, tags cloud.SharedResourceTags, l logrus.FieldLogger) (cloud.InstanceSet, error) {
-		return vPersistentSet{sis}, nil
+		return vPersistentSet{sis, e.gate}, nil
 	})
 	e.rec.log(map[string]interface{}{"ev": "reset", "scn": scn.ID, "nc": scn.N, "nw": 0, "init": init, "mode": "sound"})
 
 	start := time.Now()
 	e.newDispatcher()
+
+	if scn.StaleList {
+		e.disp.pool.CountWorkers() // returns once the pool has loaded its first instance list
+		e.gate.mu.Lock()
+		e.gate.mode = 1
+		e.gate.mu.Unlock()
+		applicable := false
+		select {
+		case <-e.gate.caught:
+			applicable = true
+		case <-time.After(10 * time.Second):
+		}
+		for _, ctr := range deferred {
+			e.queue.Notify(ctr)
+		}
+		uuid1 := test.ContainerUUID(1)
+		if os.Getenv("VERIF_DEBUG") != "" {
+			go func() {
+				for i := 0; i < 6; i++ {
+					time.Sleep(300 * time.Millisecond)
+					cnt := map[string]int{}
+					for _, iv := range e.disp.pool.Instances() {
+						cnt[iv.WorkerState+"/"+string(iv.IdleBehavior)]++
+					}
+					fmt.Printf("VERIF-DBG %v applicable=%v\n", cnt, applicable)
+				}
+			}()
+		}
+		for t0 := time.Now(); applicable && time.Since(t0) < 10*time.Second; time.Sleep(time.Millisecond) {
+			e.vmMu.Lock()
+			has := len(e.vms) > 0
+			if has {
+				_, has = e.vms[0].VProcs()[uuid1]
+			}
+			e.vmMu.Unlock()
+			if has {
+				break
+			}
+		}
+		close(e.gate.release) // the stale answer arrives now
+		for t0 := time.Now(); time.Since(t0) < 1500*time.Millisecond; time.Sleep(time.Millisecond) {
+			e.vmMu.Lock()
+			second := false
+			for i, o := range e.vms {
+				if _, ok := o.VProcs()[uuid1]; ok && i > 0 {
+					second = true
+				}
+			}
+			e.vmMu.Unlock()
+			if second {
+				break
+			}
+		}
+		e.gate.mu.Lock()
+		e.gate.mode = 0
+		e.gate.mu.Unlock()
+		close(e.gate.open)
+		if !applicable {
+			e.rec.log(map[string]interface{}{"ev": "note", "what": "stale-list scenario not applicable: no list call caught"})
+		}
+	}
 
 	// deadline for the whole scenario (C15: >= 100 x the fault-free completion time of this run)
 	factor := scn.DeadlineFactor
@@ -759,6 +877,11 @@ func TestVerifC14E2E(t *testing.T) {
 		cmd := exec.Command(os.Args[0], "-test.run", "^TestVerifC14E2EChild$", "-test.timeout", "30m")
 		cmd.Env = append(os.Environ(), "VERIF_E2E_SCN="+sf, "VERIF_E2E_OUT="+tf, fmt.Sprintf("VERIF_E2E_CALIB=%d", calib))
 		cout, cerr := cmd.CombinedOutput()
+		for _, l := range strings.Split(string(cout), "\n") {
+			if strings.HasPrefix(l, "VERIF-DBG") || (os.Getenv("VERIF_DEBUG") == "2" && strings.Contains(l, "probe")) {
+				fmt.Println(l)
+			}
+		}
 		lines, _ := ioutil.ReadFile(tf)
 		text := strings.TrimRight(string(lines), "\n")
 		// drop a torn last line
